@@ -94,6 +94,18 @@ def check_table(job):
             else:
                 if str(note).startswith('ERROR:') or pd.isnull(t.loc[rid, 'Number of Events']):
                     out['labels'].append(('healthy-row-without-count', i))
+                # the output row equals the row of the single-row run (notes and every statistics column)
+                ts = W.samples_table([rows[i]], variant=variant + i)
+                rs = {'S1': single_run(rows[i], variant + i, bf)}
+                if not isinstance(rs['S1'], Exception):
+                    with warnings.catch_warnings():
+                        warnings.simplefilter('ignore')
+                        FlowCal.excel_ui.add_samples_stats(ts, rs)
+                    for c in ts.columns:
+                        a, b = t.loc[rid, c], ts.loc['S1', c]
+                        if not ((pd.isnull(a) and pd.isnull(b)) or a == b):
+                            out['labels'].append(('output-row-differs-from-single-row-run/' + ('notes' if c == 'Analysis Notes' else 'column'), i))
+                            break
     except Exception as e:  # noqa
         out['labels'].append(('stats-aborted/' + type(e).__name__, -1))
     return out
@@ -192,7 +204,12 @@ def main(chk, replay=None):
                 tables.append((fin[-1]['table'], fin[-1]['results']))
                 tables.append((fin[-1]['table'][::-1], fin[-1]['results'][::-1]))       # row order reversed
     if chk.quick:
-        pick = [i for i in range(len(tables)) if (i + chk.seed) % 9 == 0 or len(tables[i][0]) >= 3 or len(tables[i][0]) == 0]
+        def err_then_float3(tr):
+            rows, exp = tr
+            return len(rows) == 2 and exp[0]['k'] == 'err' and exp[1]['k'] == 'ok' and rows[1]['file'] == 'ok-float' and \
+                rows[1]['units'][2] != 'empty'
+        pick = [i for i in range(len(tables)) if (i + chk.seed) % 9 == 0 or len(tables[i][0]) >= 3 or len(tables[i][0]) == 0
+                or (err_then_float3(tables[i]) and (i + chk.seed) % 3 == 0)]
     else:
         pick = list(range(len(tables)))
     W = xw.World()
